@@ -380,9 +380,47 @@ func H_C06_remove_many() {
 			}
 		}
 	}
+	// the same with a k below the number of matches (the bounded top-k paths of the searches): no removed document
+	// takes one of the k places, and the places are filled as long as live matches exist
+	checkSmallK := func(label string) {
+		live := 0
+		for i := range ids {
+			if mask&(1<<uint(i)) == 0 {
+				live++
+			}
+		}
+		for k := 1; k <= 3; k++ {
+			rt, e1 := txt.NewSearch().WithQuery("fox").WithK(k).Execute()
+			rv, e2 := flat.NewSearch().WithQuery([]float32{2}).WithK(k).Execute()
+			ht, e3 := h.NewSearch().WithText("fox").WithK(k).Execute()
+			vAssert(e1 == nil && e2 == nil && e3 == nil, label+"-search-ok")
+			var tt, tv []uint32
+			for _, r := range rt {
+				tt = append(tt, r.Id)
+			}
+			for _, r := range rv {
+				tv = append(tv, r.GetId())
+			}
+			want := k
+			if live < k {
+				want = live
+			}
+			for li, got := range [][]uint32{tt, tv, vIDsOfHybrid(ht)} {
+				via := []string{"text-index", "vector-index", "hybrid-text"}[li]
+				vAssert(len(got) == want, label+"-small-k-places-filled-with-live-documents-via-"+via)
+				for i, id := range ids {
+					if mask&(1<<uint(i)) != 0 {
+						vAssert(!vContains(got, id), label+"-removed-document-unfindable-with-small-k-via-"+via)
+					}
+				}
+			}
+		}
+	}
 	check("before-flush")
+	checkSmallK("before-flush")
 	vAssert(h.Flush() == nil, "flush-ok")
 	check("after-flush")
+	checkSmallK("after-flush")
 	vAssert(flat.Flush() == nil && txt.Flush() == nil && meta.Flush() == nil, "flush-ok")
 	check("after-sub-index-flushes")
 	vCover("ran")
@@ -460,4 +498,114 @@ func H_C06_readd_hybrid() {
 		}
 	}
 	vCover("ran")
+}
+
+func init() { vHarnesses["H_C06_either_or"] = H_C06_either_or }
+
+// "either findable through every modality it supplied, or fails and leaves everything unchanged" on inputs where it
+// is not obvious WHICH of the two the library chooses: non-finite and extreme float metadata, extreme integers,
+// non-finite vector components, empty text / nil metadata, empty keys and values.  (One key carrying two value types
+// across documents is outside: the property's documents are typed per field.)  Whatever
+// Add answers, it has to stand by it.
+func H_C06_either_or() {
+	metric := []DistanceKind{L2Squared, Cosine}[vChoose("metric", 2)]
+	flat, _ := NewFlatIndex(2, metric)
+	h := NewHybridSearchIndex(flat, NewBM25SearchIndex(), NewRoaringMetadataIndex())
+	vAssert(h.AddWithID(5, []float32{1, 0}, "tick tick fox dog", map[string]interface{}{"c": "x", "n": 3}) == nil, "add-ok")
+	vAssert(h.AddWithID(3, []float32{0, 2}, "fox", map[string]interface{}{"c": "y", "f": 1.5}) == nil, "add-ok")
+	before := vRunBattery(h, 2)
+	vec := []float32{3, 4}
+	text := "new fox"
+	meta := map[string]interface{}{"c": "new", "n": 7}
+	inf := func(sign int) float64 {
+		x := 1e308
+		return x * 10 * float64(sign)
+	}
+	nan := inf(1) - inf(1)
+	switch vChoose("odd", 12) {
+	case 0:
+		meta = map[string]interface{}{"c": "new", "f": nan, "n": 7}
+	case 1:
+		meta = map[string]interface{}{"c": "new", "f": inf(1), "n": 7}
+	case 2:
+		meta = map[string]interface{}{"a": inf(-1), "c": "new"}
+	case 3:
+		meta = map[string]interface{}{"c": "new", "f": 1e300} // finite, far outside the fixed-point range
+	case 4:
+		meta = map[string]interface{}{"c": "new", "n": int64(-9223372036854775808)}
+	case 5:
+		meta = map[string]interface{}{"c": "new", "n": int64(9223372036854775807)}
+	case 6:
+		meta = map[string]interface{}{"c": "", "": "x"} // empty value, empty key
+	case 7:
+		meta = map[string]interface{}{"c": "new", "z": nil}
+	case 8:
+		vec = []float32{float32(nan), 1}
+	case 9:
+		vec = []float32{float32(inf(1)), 1}
+	case 10:
+		text, meta = "", nil
+	case 11:
+		vec, meta = nil, map[string]interface{}{"c": "new"}
+	}
+	var err error
+	id := uint32(9)
+	if vChoose("with_id", 2) == 1 {
+		err = h.AddWithID(9, vec, text, meta)
+	} else {
+		nodeIDCounter = 1000
+		id, err = h.Add(vec, text, meta)
+	}
+	after := vRunBattery(h, 2)
+	if err != nil {
+		vSameBattery(before, after, "refused-add")
+		vAssert(h.Remove(id) != nil, "refused-add-leaves-no-record-remove-is-error")
+		vSameBattery(before, vRunBattery(h, 2), "failed-remove")
+		vCover("refused")
+		return
+	}
+	// accepted: findable through every modality it supplied
+	if vec != nil {
+		// (a non-finite vector has no distance to rank by: only finite ones must be found by the vector search)
+		fin := true
+		for _, x := range vec {
+			if x != x || x > 3e38 || x < -3e38 {
+				fin = false
+			}
+		}
+		if fin {
+			vAssert(vContains(after.vec, id), "accepted-add-findable-by-vector")
+		}
+	}
+	if text != "" {
+		vAssert(vContains(after.txt, id), "accepted-add-findable-by-text")
+	}
+	if meta != nil {
+		rs, e := h.MetadataIndex().NewSearch().Execute()
+		vAssert(e == nil, "metadata-ok")
+		found := false
+		for _, r := range rs {
+			if r.GetId() == id {
+				found = true
+			}
+		}
+		vAssert(found, "accepted-add-listed-by-metadata")
+		for key := range meta {
+			rs, e := h.MetadataIndex().NewSearch().WithFilters(Exists(key)).Execute()
+			vAssert(e == nil, "metadata-ok")
+			found := false
+			for _, r := range rs {
+				if r.GetId() == id {
+					found = true
+				}
+			}
+			vAssert(found, "accepted-add-findable-by-each-metadata-key")
+		}
+	}
+	// and removable exactly once, from everywhere
+	vAssert(h.Remove(id) == nil, "accepted-add-removable")
+	b := vRunBattery(h, 2)
+	vAssert(!vContains(b.vec, id) && !vContains(b.txt, id) && !vContains(b.meta, id), "removed-unfindable")
+	vAssert(h.Remove(id) != nil, "second-remove-is-error")
+	vCover("accepted")
 }
